@@ -213,6 +213,12 @@ def harvested_pairs(rnd, stmt, cons, k):
         sp = span_of(n, offs)
         if sp is None:
             continue
+        # a node whose span starts right after an identifier/closing bracket/quote (a generator expression that is the sole call
+        # argument spans the call's own parentheses) cannot be replaced textually without gluing it to the preceding token
+        if sp[0] > 0 and (stmt[sp[0] - 1].isalnum() or stmt[sp[0] - 1] in "_)]}'\""):
+            continue
+        if sp[1] < len(stmt) and (stmt[sp[1]].isalnum() or stmt[sp[1]] in "_'\""):
+            continue
         x, t = rnd.choice(cons)
         px = stmt[: sp[0]] + x + stmt[sp[1] :]
         pt = stmt[: sp[0]] + t + stmt[sp[1] :]
